@@ -13,8 +13,8 @@
  * enforced function needs 12M variables instead of 2.5M); its postcondition is stated over the scenario's expected
  * map x_has / x_val, selected by SCN.  The other observations are harness assertions.
  *
- * EVERY check below is BOUNDED (bounded= key): the number of pairs per tree (vary=: CA for one tree, CN for two trees,
- * see NA_LO..NB_HI) and keys < 8 are fixed by the harness.  Keys and values are symbolic
+ * EVERY check below is BOUNDED (bounded= key): the number of pairs per tree (vary=: NA for one tree, NN = 3*NA + NB for
+ * two trees) and keys < 8 are fixed by the harness.  Keys and values are symbolic
  * (values: any 64-bit number), so within the bound all key coincidences, all tree shapes and all insertion orders
  * are covered.
  * unwind=5: the only loops are highest_bit (<= 3 doublings for 3-bit keys) and the iteration (<= 3 steps); the
@@ -39,23 +39,25 @@ void PT_REMOVE(PT *self, K *key);
 unsigned char PT_MERGE(PT *self, PT *t, BOP *op);
 unsigned char PT_LEQ(PT *self, PT *t, PORD *po);
 void PT_TRANSFORM(PT *self, UOP *op);
-/* sizes of the model lists, per run: CA (one tree) / CN (two trees) select a case; within a case a count may be
- * symbolic (lo < hi).  CA: 0 = at most 1 pair, 1 = exactly 2.  CN: 0 = (<=1, <=1), 1 = (2, <=1), 2 = (<=1, 2); (2, 2) = case 3 is NOT
- * run: no back end answers within 40 minutes (two-leaf nodes on both sides are covered by the concrete key sets below). */
-#ifdef CN
-#define CA (CN == 1 || CN == 3)
-#define CB (CN == 2 || CN == 3)
+/* sizes of the model lists: EXACT and compile-time constant in every run (vary=): NA for one tree, NN = 3*NA + NB for
+ * two trees, each 0..2.  (Measured: a symbolic count, i.e. a root that is "null or a leaf" for the symbolic execution,
+ * costs more than the sum of the exact cases: leq with counts <= 1 on both sides needs 640 s of symbolic execution,
+ * the four exact cases 30 s each.)  NN = 8, i.e. (2, 2), is NOT run: no back end answers within 40 minutes; two-leaf
+ * nodes on both sides are covered by the concrete key sets below. */
+#ifdef NN
+#define NA (NN / 3)
+#define NB (NN % 3)
 #endif
-#ifndef CA
-#define CA 1
+#ifndef NA
+#define NA 2
 #endif
-#ifndef CB
-#define CB 1
+#ifndef NB
+#define NB 2
 #endif
-#define NA_LO (CA ? 2 : 0)
-#define NA_HI (CA ? 2 : 1)
-#define NB_LO (CB ? 2 : 0)
-#define NB_HI (CB ? 2 : 1)
+#define NA_LO NA
+#define NA_HI NA
+#define NB_LO NB
+#define NB_HI NB
 #ifndef OPK
 #define OPK OP_MAX
 #endif
@@ -118,25 +120,25 @@ static void put(PT *t, uint64_t k, uint64_t v){ K kk; V vv; k_new(&kk, k); v_new
 /* ===================== one tree ===================== */
 /* insert, then lookup / find / size: the LAST pair inserted for a key wins, other keys are not disturbed */
 /* BOUNDED */
-//@check id=build fn=_ZNK4ikos13patricia_treeI1K1VSt8equal_toIS2_EE6lookupERKS1_ props=C19 tag=lookup unwind=5 backends=minisat,kissat first_timeout=600 timeout=900 defs=SCN=SC_BUILD vary=CA:0-1 bounded="<=2 bindings, keys < 8" cbmc=--unwindset,_ZNK4ikos19patricia_trees_impl4nodeI1K1VSt8equal_toIS3_EE6lookupERKS2_:1,--unwindset,_ZNK4ikos19patricia_trees_impl4nodeI1K1VSt8equal_toIS3_EE4findERKS2_:1,--unwindset,_ZN4ikos19patricia_trees_impl4treeI1K1VSt8equal_toIS3_EE6insertESt10shared_ptrIS6_ERKS2_RKS3_RNS_9binary_opIS2_S3_EEb:2,--unwindset,_ZN4ikos19patricia_trees_impl4treeI1K1VSt8equal_toIS3_EE5mergeESt10shared_ptrIS6_ES8_RNS_9binary_opIS2_S3_EEb:2,--unwindset,_ZN4ikos19patricia_trees_impl4treeI1K1VSt8equal_toIS3_EE7compareESt10shared_ptrIS6_ES8_RNS_13partial_orderIS3_EEb:2,--unwindset,_ZN4ikos19patricia_trees_impl4treeI1K1VSt8equal_toIS3_EE6removeESt10shared_ptrIS6_ERKS2_:2,--unwindset,_ZN4ikos19patricia_trees_impl4treeI1K1VSt8equal_toIS3_EE9transformESt10shared_ptrIS6_ERNS_8unary_opIS3_EE:2,--unwindset,_ZN4ikos19patricia_trees_impl4treeI1K1VSt8equal_toIS3_EE8iterator18look_for_next_leafESt10shared_ptrIS6_E:2
+//@check id=build fn=_ZNK4ikos13patricia_treeI1K1VSt8equal_toIS2_EE6lookupERKS1_ props=C19 tag=lookup unwind=5 backends=minisat,kissat first_timeout=600 timeout=900 timeout_thorough=2400 defs=SCN=SC_BUILD vary=NA:0-2 bounded="<=2 bindings, keys < 8" cbmc=--unwindset,_ZNK4ikos19patricia_trees_impl4nodeI1K1VSt8equal_toIS3_EE6lookupERKS2_:1,--unwindset,_ZNK4ikos19patricia_trees_impl4nodeI1K1VSt8equal_toIS3_EE4findERKS2_:1,--unwindset,_ZN4ikos19patricia_trees_impl4treeI1K1VSt8equal_toIS3_EE6insertESt10shared_ptrIS6_ERKS2_RKS3_RNS_9binary_opIS2_S3_EEb:2,--unwindset,_ZN4ikos19patricia_trees_impl4treeI1K1VSt8equal_toIS3_EE5mergeESt10shared_ptrIS6_ES8_RNS_9binary_opIS2_S3_EEb:2,--unwindset,_ZN4ikos19patricia_trees_impl4treeI1K1VSt8equal_toIS3_EE7compareESt10shared_ptrIS6_ES8_RNS_13partial_orderIS3_EEb:2,--unwindset,_ZN4ikos19patricia_trees_impl4treeI1K1VSt8equal_toIS3_EE6removeESt10shared_ptrIS6_ERKS2_:2,--unwindset,_ZN4ikos19patricia_trees_impl4treeI1K1VSt8equal_toIS3_EE9transformESt10shared_ptrIS6_ERNS_8unary_opIS3_EE:2,--unwindset,_ZN4ikos19patricia_trees_impl4treeI1K1VSt8equal_toIS3_EE8iterator18look_for_next_leafESt10shared_ptrIS6_E:2
 void h_build(void){ GIN(g_a, NA_LO, NA_HI); GHOSTG(uint64_t, g_q); PT t; build(&t, &g_a, NA_HI); OBSERVE_X(&t, "insert"); REACH; }
 /* remove of g_k: afterwards g_k is unbound, every other key is as before */
 /* BOUNDED */
-//@check id=remove fn=_ZNK4ikos13patricia_treeI1K1VSt8equal_toIS2_EE6lookupERKS1_ props=C19 tag=lookup unwind=5 backends=minisat,kissat first_timeout=600 timeout=900 defs=SCN=SC_REMOVE vary=CA:0-1 bounded="<=2 bindings, keys < 8" cbmc=--unwindset,_ZNK4ikos19patricia_trees_impl4nodeI1K1VSt8equal_toIS3_EE6lookupERKS2_:1,--unwindset,_ZNK4ikos19patricia_trees_impl4nodeI1K1VSt8equal_toIS3_EE4findERKS2_:1,--unwindset,_ZN4ikos19patricia_trees_impl4treeI1K1VSt8equal_toIS3_EE6insertESt10shared_ptrIS6_ERKS2_RKS3_RNS_9binary_opIS2_S3_EEb:2,--unwindset,_ZN4ikos19patricia_trees_impl4treeI1K1VSt8equal_toIS3_EE5mergeESt10shared_ptrIS6_ES8_RNS_9binary_opIS2_S3_EEb:2,--unwindset,_ZN4ikos19patricia_trees_impl4treeI1K1VSt8equal_toIS3_EE7compareESt10shared_ptrIS6_ES8_RNS_13partial_orderIS3_EEb:2,--unwindset,_ZN4ikos19patricia_trees_impl4treeI1K1VSt8equal_toIS3_EE6removeESt10shared_ptrIS6_ERKS2_:2,--unwindset,_ZN4ikos19patricia_trees_impl4treeI1K1VSt8equal_toIS3_EE9transformESt10shared_ptrIS6_ERNS_8unary_opIS3_EE:2,--unwindset,_ZN4ikos19patricia_trees_impl4treeI1K1VSt8equal_toIS3_EE8iterator18look_for_next_leafESt10shared_ptrIS6_E:2
+//@check id=remove fn=_ZNK4ikos13patricia_treeI1K1VSt8equal_toIS2_EE6lookupERKS1_ props=C19 tag=lookup unwind=5 backends=minisat,kissat first_timeout=600 timeout=900 timeout_thorough=2400 defs=SCN=SC_REMOVE vary=NA:0-2 bounded="<=2 bindings, keys < 8" cbmc=--unwindset,_ZNK4ikos19patricia_trees_impl4nodeI1K1VSt8equal_toIS3_EE6lookupERKS2_:1,--unwindset,_ZNK4ikos19patricia_trees_impl4nodeI1K1VSt8equal_toIS3_EE4findERKS2_:1,--unwindset,_ZN4ikos19patricia_trees_impl4treeI1K1VSt8equal_toIS3_EE6insertESt10shared_ptrIS6_ERKS2_RKS3_RNS_9binary_opIS2_S3_EEb:2,--unwindset,_ZN4ikos19patricia_trees_impl4treeI1K1VSt8equal_toIS3_EE5mergeESt10shared_ptrIS6_ES8_RNS_9binary_opIS2_S3_EEb:2,--unwindset,_ZN4ikos19patricia_trees_impl4treeI1K1VSt8equal_toIS3_EE7compareESt10shared_ptrIS6_ES8_RNS_13partial_orderIS3_EEb:2,--unwindset,_ZN4ikos19patricia_trees_impl4treeI1K1VSt8equal_toIS3_EE6removeESt10shared_ptrIS6_ERKS2_:2,--unwindset,_ZN4ikos19patricia_trees_impl4treeI1K1VSt8equal_toIS3_EE9transformESt10shared_ptrIS6_ERNS_8unary_opIS3_EE:2,--unwindset,_ZN4ikos19patricia_trees_impl4treeI1K1VSt8equal_toIS3_EE8iterator18look_for_next_leafESt10shared_ptrIS6_E:2
 void h_remove(void){ GIN(g_a, NA_LO, NA_HI); GHOSTG(uint64_t, g_k); GHOSTG(uint64_t, g_q);
   PT t; build(&t, &g_a, NA_HI); K kk; k_new(&kk, g_k);
   PT_REMOVE(&t, &kk);
   OBSERVE_X(&t, "remove"); REACH; }
 /* transform with inc_op: every value is incremented, bindings that reach PT_TOPV are dropped */
 /* BOUNDED */
-//@check id=transform fn=_ZNK4ikos13patricia_treeI1K1VSt8equal_toIS2_EE6lookupERKS1_ props=C19 tag=lookup unwind=5 backends=minisat,kissat first_timeout=600 timeout=900 defs=SCN=SC_TRANSFORM vary=CA:0-1 bounded="<=2 bindings, keys < 8" cbmc=--unwindset,_ZNK4ikos19patricia_trees_impl4nodeI1K1VSt8equal_toIS3_EE6lookupERKS2_:1,--unwindset,_ZNK4ikos19patricia_trees_impl4nodeI1K1VSt8equal_toIS3_EE4findERKS2_:1,--unwindset,_ZN4ikos19patricia_trees_impl4treeI1K1VSt8equal_toIS3_EE6insertESt10shared_ptrIS6_ERKS2_RKS3_RNS_9binary_opIS2_S3_EEb:2,--unwindset,_ZN4ikos19patricia_trees_impl4treeI1K1VSt8equal_toIS3_EE5mergeESt10shared_ptrIS6_ES8_RNS_9binary_opIS2_S3_EEb:2,--unwindset,_ZN4ikos19patricia_trees_impl4treeI1K1VSt8equal_toIS3_EE7compareESt10shared_ptrIS6_ES8_RNS_13partial_orderIS3_EEb:2,--unwindset,_ZN4ikos19patricia_trees_impl4treeI1K1VSt8equal_toIS3_EE6removeESt10shared_ptrIS6_ERKS2_:2,--unwindset,_ZN4ikos19patricia_trees_impl4treeI1K1VSt8equal_toIS3_EE9transformESt10shared_ptrIS6_ERNS_8unary_opIS3_EE:2,--unwindset,_ZN4ikos19patricia_trees_impl4treeI1K1VSt8equal_toIS3_EE8iterator18look_for_next_leafESt10shared_ptrIS6_E:2
+//@check id=transform fn=_ZNK4ikos13patricia_treeI1K1VSt8equal_toIS2_EE6lookupERKS1_ props=C19 tag=lookup unwind=5 backends=minisat,kissat first_timeout=600 timeout=900 timeout_thorough=2400 defs=SCN=SC_TRANSFORM vary=NA:0-2 bounded="<=2 bindings, keys < 8" cbmc=--unwindset,_ZNK4ikos19patricia_trees_impl4nodeI1K1VSt8equal_toIS3_EE6lookupERKS2_:1,--unwindset,_ZNK4ikos19patricia_trees_impl4nodeI1K1VSt8equal_toIS3_EE4findERKS2_:1,--unwindset,_ZN4ikos19patricia_trees_impl4treeI1K1VSt8equal_toIS3_EE6insertESt10shared_ptrIS6_ERKS2_RKS3_RNS_9binary_opIS2_S3_EEb:2,--unwindset,_ZN4ikos19patricia_trees_impl4treeI1K1VSt8equal_toIS3_EE5mergeESt10shared_ptrIS6_ES8_RNS_9binary_opIS2_S3_EEb:2,--unwindset,_ZN4ikos19patricia_trees_impl4treeI1K1VSt8equal_toIS3_EE7compareESt10shared_ptrIS6_ES8_RNS_13partial_orderIS3_EEb:2,--unwindset,_ZN4ikos19patricia_trees_impl4treeI1K1VSt8equal_toIS3_EE6removeESt10shared_ptrIS6_ERKS2_:2,--unwindset,_ZN4ikos19patricia_trees_impl4treeI1K1VSt8equal_toIS3_EE9transformESt10shared_ptrIS6_ERNS_8unary_opIS3_EE:2,--unwindset,_ZN4ikos19patricia_trees_impl4treeI1K1VSt8equal_toIS3_EE8iterator18look_for_next_leafESt10shared_ptrIS6_E:2
 void h_transform(void){ GIN(g_a, NA_LO, NA_HI); GHOSTG(uint64_t, g_q);
   PT t; build(&t, &g_a, NA_HI); INCOP op; inc_op_new(&op);
   PT_TRANSFORM(&t, (UOP *)&op);
   OBSERVE_X(&t, "transform"); REACH; }
 /* iteration begin()..end(): every binding exactly once, with its value, nothing else, size() steps */
 /* BOUNDED */
-//@check id=iterate fn=_ZNK4ikos13patricia_treeI1K1VSt8equal_toIS2_EE6lookupERKS1_ props=C19 tag=lookup unwind=5 backends=minisat,kissat first_timeout=600 timeout=900 defs=SCN=SC_BUILD vary=CA:0-1 bounded="<=2 bindings, keys < 8" cbmc=--unwindset,_ZNK4ikos19patricia_trees_impl4nodeI1K1VSt8equal_toIS3_EE6lookupERKS2_:1,--unwindset,_ZNK4ikos19patricia_trees_impl4nodeI1K1VSt8equal_toIS3_EE4findERKS2_:1,--unwindset,_ZN4ikos19patricia_trees_impl4treeI1K1VSt8equal_toIS3_EE6insertESt10shared_ptrIS6_ERKS2_RKS3_RNS_9binary_opIS2_S3_EEb:2,--unwindset,_ZN4ikos19patricia_trees_impl4treeI1K1VSt8equal_toIS3_EE5mergeESt10shared_ptrIS6_ES8_RNS_9binary_opIS2_S3_EEb:2,--unwindset,_ZN4ikos19patricia_trees_impl4treeI1K1VSt8equal_toIS3_EE7compareESt10shared_ptrIS6_ES8_RNS_13partial_orderIS3_EEb:2,--unwindset,_ZN4ikos19patricia_trees_impl4treeI1K1VSt8equal_toIS3_EE6removeESt10shared_ptrIS6_ERKS2_:2,--unwindset,_ZN4ikos19patricia_trees_impl4treeI1K1VSt8equal_toIS3_EE9transformESt10shared_ptrIS6_ERNS_8unary_opIS3_EE:2,--unwindset,_ZN4ikos19patricia_trees_impl4treeI1K1VSt8equal_toIS3_EE8iterator18look_for_next_leafESt10shared_ptrIS6_E:2
+//@check id=iterate fn=_ZNK4ikos13patricia_treeI1K1VSt8equal_toIS2_EE6lookupERKS1_ props=C19 tag=lookup unwind=5 backends=minisat,kissat first_timeout=600 timeout=900 timeout_thorough=2400 defs=SCN=SC_BUILD vary=NA:0-1 vary_thorough=NA:0-2 bounded="<=2 bindings, keys < 8" cbmc=--unwindset,_ZNK4ikos19patricia_trees_impl4nodeI1K1VSt8equal_toIS3_EE6lookupERKS2_:1,--unwindset,_ZNK4ikos19patricia_trees_impl4nodeI1K1VSt8equal_toIS3_EE4findERKS2_:1,--unwindset,_ZN4ikos19patricia_trees_impl4treeI1K1VSt8equal_toIS3_EE6insertESt10shared_ptrIS6_ERKS2_RKS3_RNS_9binary_opIS2_S3_EEb:2,--unwindset,_ZN4ikos19patricia_trees_impl4treeI1K1VSt8equal_toIS3_EE5mergeESt10shared_ptrIS6_ES8_RNS_9binary_opIS2_S3_EEb:2,--unwindset,_ZN4ikos19patricia_trees_impl4treeI1K1VSt8equal_toIS3_EE7compareESt10shared_ptrIS6_ES8_RNS_13partial_orderIS3_EEb:2,--unwindset,_ZN4ikos19patricia_trees_impl4treeI1K1VSt8equal_toIS3_EE6removeESt10shared_ptrIS6_ERKS2_:2,--unwindset,_ZN4ikos19patricia_trees_impl4treeI1K1VSt8equal_toIS3_EE9transformESt10shared_ptrIS6_ERNS_8unary_opIS3_EE:2,--unwindset,_ZN4ikos19patricia_trees_impl4treeI1K1VSt8equal_toIS3_EE8iterator18look_for_next_leafESt10shared_ptrIS6_E:2
 void h_iterate(void){ GIN(g_a, NA_LO, NA_HI); GHOSTG(uint64_t, g_q); GHOSTG(uint64_t, g_k);
   __CPROVER_assume(g_k < PT_KEYS);
   PT t; build(&t, &g_a, NA_HI); PTIter it;
@@ -157,16 +159,16 @@ void h_iterate(void){ GIN(g_a, NA_LO, NA_HI); GHOSTG(uint64_t, g_q); GHOSTG(uint
   FIND_IS(&tb, g_q, m_has(&g_b, g_q), m_val(&g_b, g_q), "merge_with: argument unchanged"); \
   OBSERVE_X(&ta, "merge_with"); REACH; }
 /* BOUNDED */
-//@check id=merge_max fn=_ZNK4ikos13patricia_treeI1K1VSt8equal_toIS2_EE6lookupERKS1_ props=C19 tag=lookup unwind=5 backends=minisat,kissat first_timeout=600 timeout=900 defs=SCN=SC_MERGE,OPK=OP_MAX vary=CN:0-2 bounded="<=2 bindings per tree, keys < 8" cbmc=--unwindset,_ZNK4ikos19patricia_trees_impl4nodeI1K1VSt8equal_toIS3_EE6lookupERKS2_:1,--unwindset,_ZNK4ikos19patricia_trees_impl4nodeI1K1VSt8equal_toIS3_EE4findERKS2_:1,--unwindset,_ZN4ikos19patricia_trees_impl4treeI1K1VSt8equal_toIS3_EE6insertESt10shared_ptrIS6_ERKS2_RKS3_RNS_9binary_opIS2_S3_EEb:2,--unwindset,_ZN4ikos19patricia_trees_impl4treeI1K1VSt8equal_toIS3_EE5mergeESt10shared_ptrIS6_ES8_RNS_9binary_opIS2_S3_EEb:2,--unwindset,_ZN4ikos19patricia_trees_impl4treeI1K1VSt8equal_toIS3_EE7compareESt10shared_ptrIS6_ES8_RNS_13partial_orderIS3_EEb:2,--unwindset,_ZN4ikos19patricia_trees_impl4treeI1K1VSt8equal_toIS3_EE6removeESt10shared_ptrIS6_ERKS2_:2,--unwindset,_ZN4ikos19patricia_trees_impl4treeI1K1VSt8equal_toIS3_EE9transformESt10shared_ptrIS6_ERNS_8unary_opIS3_EE:2,--unwindset,_ZN4ikos19patricia_trees_impl4treeI1K1VSt8equal_toIS3_EE8iterator18look_for_next_leafESt10shared_ptrIS6_E:2
+//@check id=merge_max fn=_ZNK4ikos13patricia_treeI1K1VSt8equal_toIS2_EE6lookupERKS1_ props=C19 tag=lookup unwind=5 backends=minisat,kissat first_timeout=600 timeout=900 timeout_thorough=2400 defs=SCN=SC_MERGE,OPK=OP_MAX vary=NN:4,5,7 vary_thorough=NN:0-7 bounded="<=2 bindings per tree, keys < 8" cbmc=--unwindset,_ZNK4ikos19patricia_trees_impl4nodeI1K1VSt8equal_toIS3_EE6lookupERKS2_:1,--unwindset,_ZNK4ikos19patricia_trees_impl4nodeI1K1VSt8equal_toIS3_EE4findERKS2_:1,--unwindset,_ZN4ikos19patricia_trees_impl4treeI1K1VSt8equal_toIS3_EE6insertESt10shared_ptrIS6_ERKS2_RKS3_RNS_9binary_opIS2_S3_EEb:2,--unwindset,_ZN4ikos19patricia_trees_impl4treeI1K1VSt8equal_toIS3_EE5mergeESt10shared_ptrIS6_ES8_RNS_9binary_opIS2_S3_EEb:2,--unwindset,_ZN4ikos19patricia_trees_impl4treeI1K1VSt8equal_toIS3_EE7compareESt10shared_ptrIS6_ES8_RNS_13partial_orderIS3_EEb:2,--unwindset,_ZN4ikos19patricia_trees_impl4treeI1K1VSt8equal_toIS3_EE6removeESt10shared_ptrIS6_ERKS2_:2,--unwindset,_ZN4ikos19patricia_trees_impl4treeI1K1VSt8equal_toIS3_EE9transformESt10shared_ptrIS6_ERNS_8unary_opIS3_EE:2,--unwindset,_ZN4ikos19patricia_trees_impl4treeI1K1VSt8equal_toIS3_EE8iterator18look_for_next_leafESt10shared_ptrIS6_E:2
 void h_merge_max(void) MERGE_HARNESS(GIN(g_a, NA_LO, NA_HI), GIN(g_b, NB_LO, NB_HI), NA_HI, NB_HI, MAXOP, max_op_new)
 /* BOUNDED */
-//@check id=merge_min fn=_ZNK4ikos13patricia_treeI1K1VSt8equal_toIS2_EE6lookupERKS1_ props=C19 tag=lookup unwind=5 backends=minisat,kissat first_timeout=600 timeout=900 defs=SCN=SC_MERGE,OPK=OP_MIN vary=CN:0-2 bounded="<=2 bindings per tree, keys < 8" cbmc=--unwindset,_ZNK4ikos19patricia_trees_impl4nodeI1K1VSt8equal_toIS3_EE6lookupERKS2_:1,--unwindset,_ZNK4ikos19patricia_trees_impl4nodeI1K1VSt8equal_toIS3_EE4findERKS2_:1,--unwindset,_ZN4ikos19patricia_trees_impl4treeI1K1VSt8equal_toIS3_EE6insertESt10shared_ptrIS6_ERKS2_RKS3_RNS_9binary_opIS2_S3_EEb:2,--unwindset,_ZN4ikos19patricia_trees_impl4treeI1K1VSt8equal_toIS3_EE5mergeESt10shared_ptrIS6_ES8_RNS_9binary_opIS2_S3_EEb:2,--unwindset,_ZN4ikos19patricia_trees_impl4treeI1K1VSt8equal_toIS3_EE7compareESt10shared_ptrIS6_ES8_RNS_13partial_orderIS3_EEb:2,--unwindset,_ZN4ikos19patricia_trees_impl4treeI1K1VSt8equal_toIS3_EE6removeESt10shared_ptrIS6_ERKS2_:2,--unwindset,_ZN4ikos19patricia_trees_impl4treeI1K1VSt8equal_toIS3_EE9transformESt10shared_ptrIS6_ERNS_8unary_opIS3_EE:2,--unwindset,_ZN4ikos19patricia_trees_impl4treeI1K1VSt8equal_toIS3_EE8iterator18look_for_next_leafESt10shared_ptrIS6_E:2
+//@check id=merge_min fn=_ZNK4ikos13patricia_treeI1K1VSt8equal_toIS2_EE6lookupERKS1_ props=C19 tag=lookup unwind=5 backends=minisat,kissat first_timeout=600 timeout=900 timeout_thorough=2400 defs=SCN=SC_MERGE,OPK=OP_MIN vary=NN:4 vary_thorough=NN:0-7 bounded="<=2 bindings per tree, keys < 8" cbmc=--unwindset,_ZNK4ikos19patricia_trees_impl4nodeI1K1VSt8equal_toIS3_EE6lookupERKS2_:1,--unwindset,_ZNK4ikos19patricia_trees_impl4nodeI1K1VSt8equal_toIS3_EE4findERKS2_:1,--unwindset,_ZN4ikos19patricia_trees_impl4treeI1K1VSt8equal_toIS3_EE6insertESt10shared_ptrIS6_ERKS2_RKS3_RNS_9binary_opIS2_S3_EEb:2,--unwindset,_ZN4ikos19patricia_trees_impl4treeI1K1VSt8equal_toIS3_EE5mergeESt10shared_ptrIS6_ES8_RNS_9binary_opIS2_S3_EEb:2,--unwindset,_ZN4ikos19patricia_trees_impl4treeI1K1VSt8equal_toIS3_EE7compareESt10shared_ptrIS6_ES8_RNS_13partial_orderIS3_EEb:2,--unwindset,_ZN4ikos19patricia_trees_impl4treeI1K1VSt8equal_toIS3_EE6removeESt10shared_ptrIS6_ERKS2_:2,--unwindset,_ZN4ikos19patricia_trees_impl4treeI1K1VSt8equal_toIS3_EE9transformESt10shared_ptrIS6_ERNS_8unary_opIS3_EE:2,--unwindset,_ZN4ikos19patricia_trees_impl4treeI1K1VSt8equal_toIS3_EE8iterator18look_for_next_leafESt10shared_ptrIS6_E:2
 void h_merge_min(void) MERGE_HARNESS(GIN(g_a, NA_LO, NA_HI), GIN(g_b, NB_LO, NB_HI), NA_HI, NB_HI, MINOP, min_op_new)
 /* BOUNDED */
-//@check id=merge_widen fn=_ZNK4ikos13patricia_treeI1K1VSt8equal_toIS2_EE6lookupERKS1_ props=C19 tag=lookup unwind=5 backends=minisat,kissat first_timeout=600 timeout=900 defs=SCN=SC_MERGE,OPK=OP_WIDEN vary=CN:0-2 bounded="<=2 bindings per tree, keys < 8" cbmc=--unwindset,_ZNK4ikos19patricia_trees_impl4nodeI1K1VSt8equal_toIS3_EE6lookupERKS2_:1,--unwindset,_ZNK4ikos19patricia_trees_impl4nodeI1K1VSt8equal_toIS3_EE4findERKS2_:1,--unwindset,_ZN4ikos19patricia_trees_impl4treeI1K1VSt8equal_toIS3_EE6insertESt10shared_ptrIS6_ERKS2_RKS3_RNS_9binary_opIS2_S3_EEb:2,--unwindset,_ZN4ikos19patricia_trees_impl4treeI1K1VSt8equal_toIS3_EE5mergeESt10shared_ptrIS6_ES8_RNS_9binary_opIS2_S3_EEb:2,--unwindset,_ZN4ikos19patricia_trees_impl4treeI1K1VSt8equal_toIS3_EE7compareESt10shared_ptrIS6_ES8_RNS_13partial_orderIS3_EEb:2,--unwindset,_ZN4ikos19patricia_trees_impl4treeI1K1VSt8equal_toIS3_EE6removeESt10shared_ptrIS6_ERKS2_:2,--unwindset,_ZN4ikos19patricia_trees_impl4treeI1K1VSt8equal_toIS3_EE9transformESt10shared_ptrIS6_ERNS_8unary_opIS3_EE:2,--unwindset,_ZN4ikos19patricia_trees_impl4treeI1K1VSt8equal_toIS3_EE8iterator18look_for_next_leafESt10shared_ptrIS6_E:2
+//@check id=merge_widen fn=_ZNK4ikos13patricia_treeI1K1VSt8equal_toIS2_EE6lookupERKS1_ props=C19 tag=lookup unwind=5 backends=minisat,kissat first_timeout=600 timeout=900 timeout_thorough=2400 defs=SCN=SC_MERGE,OPK=OP_WIDEN vary=NN:4 vary_thorough=NN:0-7 bounded="<=2 bindings per tree, keys < 8" cbmc=--unwindset,_ZNK4ikos19patricia_trees_impl4nodeI1K1VSt8equal_toIS3_EE6lookupERKS2_:1,--unwindset,_ZNK4ikos19patricia_trees_impl4nodeI1K1VSt8equal_toIS3_EE4findERKS2_:1,--unwindset,_ZN4ikos19patricia_trees_impl4treeI1K1VSt8equal_toIS3_EE6insertESt10shared_ptrIS6_ERKS2_RKS3_RNS_9binary_opIS2_S3_EEb:2,--unwindset,_ZN4ikos19patricia_trees_impl4treeI1K1VSt8equal_toIS3_EE5mergeESt10shared_ptrIS6_ES8_RNS_9binary_opIS2_S3_EEb:2,--unwindset,_ZN4ikos19patricia_trees_impl4treeI1K1VSt8equal_toIS3_EE7compareESt10shared_ptrIS6_ES8_RNS_13partial_orderIS3_EEb:2,--unwindset,_ZN4ikos19patricia_trees_impl4treeI1K1VSt8equal_toIS3_EE6removeESt10shared_ptrIS6_ERKS2_:2,--unwindset,_ZN4ikos19patricia_trees_impl4treeI1K1VSt8equal_toIS3_EE9transformESt10shared_ptrIS6_ERNS_8unary_opIS3_EE:2,--unwindset,_ZN4ikos19patricia_trees_impl4treeI1K1VSt8equal_toIS3_EE8iterator18look_for_next_leafESt10shared_ptrIS6_E:2
 void h_merge_widen(void) MERGE_HARNESS(GIN(g_a, NA_LO, NA_HI), GIN(g_b, NB_LO, NB_HI), NA_HI, NB_HI, WIDENOP, widen_op_new)
 /* BOUNDED */
-//@check id=merge_first fn=_ZNK4ikos13patricia_treeI1K1VSt8equal_toIS2_EE6lookupERKS1_ props=C19 tag=lookup unwind=5 backends=minisat,kissat first_timeout=600 timeout=900 defs=SCN=SC_MERGE,OPK=OP_FIRST vary=CN:0-2 bounded="<=2 bindings per tree, keys < 8" cbmc=--unwindset,_ZNK4ikos19patricia_trees_impl4nodeI1K1VSt8equal_toIS3_EE6lookupERKS2_:1,--unwindset,_ZNK4ikos19patricia_trees_impl4nodeI1K1VSt8equal_toIS3_EE4findERKS2_:1,--unwindset,_ZN4ikos19patricia_trees_impl4treeI1K1VSt8equal_toIS3_EE6insertESt10shared_ptrIS6_ERKS2_RKS3_RNS_9binary_opIS2_S3_EEb:2,--unwindset,_ZN4ikos19patricia_trees_impl4treeI1K1VSt8equal_toIS3_EE5mergeESt10shared_ptrIS6_ES8_RNS_9binary_opIS2_S3_EEb:2,--unwindset,_ZN4ikos19patricia_trees_impl4treeI1K1VSt8equal_toIS3_EE7compareESt10shared_ptrIS6_ES8_RNS_13partial_orderIS3_EEb:2,--unwindset,_ZN4ikos19patricia_trees_impl4treeI1K1VSt8equal_toIS3_EE6removeESt10shared_ptrIS6_ERKS2_:2,--unwindset,_ZN4ikos19patricia_trees_impl4treeI1K1VSt8equal_toIS3_EE9transformESt10shared_ptrIS6_ERNS_8unary_opIS3_EE:2,--unwindset,_ZN4ikos19patricia_trees_impl4treeI1K1VSt8equal_toIS3_EE8iterator18look_for_next_leafESt10shared_ptrIS6_E:2
+//@check id=merge_first fn=_ZNK4ikos13patricia_treeI1K1VSt8equal_toIS2_EE6lookupERKS1_ props=C19 tag=lookup unwind=5 backends=minisat,kissat first_timeout=600 timeout=900 timeout_thorough=2400 defs=SCN=SC_MERGE,OPK=OP_FIRST vary=NN:4 vary_thorough=NN:0-7 bounded="<=2 bindings per tree, keys < 8" cbmc=--unwindset,_ZNK4ikos19patricia_trees_impl4nodeI1K1VSt8equal_toIS3_EE6lookupERKS2_:1,--unwindset,_ZNK4ikos19patricia_trees_impl4nodeI1K1VSt8equal_toIS3_EE4findERKS2_:1,--unwindset,_ZN4ikos19patricia_trees_impl4treeI1K1VSt8equal_toIS3_EE6insertESt10shared_ptrIS6_ERKS2_RKS3_RNS_9binary_opIS2_S3_EEb:2,--unwindset,_ZN4ikos19patricia_trees_impl4treeI1K1VSt8equal_toIS3_EE5mergeESt10shared_ptrIS6_ES8_RNS_9binary_opIS2_S3_EEb:2,--unwindset,_ZN4ikos19patricia_trees_impl4treeI1K1VSt8equal_toIS3_EE7compareESt10shared_ptrIS6_ES8_RNS_13partial_orderIS3_EEb:2,--unwindset,_ZN4ikos19patricia_trees_impl4treeI1K1VSt8equal_toIS3_EE6removeESt10shared_ptrIS6_ERKS2_:2,--unwindset,_ZN4ikos19patricia_trees_impl4treeI1K1VSt8equal_toIS3_EE9transformESt10shared_ptrIS6_ERNS_8unary_opIS3_EE:2,--unwindset,_ZN4ikos19patricia_trees_impl4treeI1K1VSt8equal_toIS3_EE8iterator18look_for_next_leafESt10shared_ptrIS6_E:2
 void h_merge_first(void) MERGE_HARNESS(GIN(g_a, NA_LO, NA_HI), GIN(g_b, NB_LO, NB_HI), NA_HI, NB_HI, FIRSTOP, first_op_new)
 
 /* leq in both default_is_top modes: exactly the pointwise order.  (This is the check that the defect repaired by
@@ -178,20 +180,20 @@ void h_merge_first(void) MERGE_HARNESS(GIN(g_a, NA_LO, NA_HI), GIN(g_b, NB_LO, N
   FIND_IS(&tb, g_q, m_has(&g_b, g_q), m_val(&g_b, g_q), "leq: right operand unchanged"); \
   OBSERVE_X(&ta, "leq: left operand unchanged"); REACH; }
 /* BOUNDED */
-//@check id=leq_top fn=_ZNK4ikos13patricia_treeI1K1VSt8equal_toIS2_EE6lookupERKS1_ props=C19,C04 tag=lookup unwind=5 backends=minisat,kissat first_timeout=600 timeout=900 defs=SCN=SC_BUILD,DTOP=1 vary=CN:0-2 bounded="<=2 bindings per tree, keys < 8" cbmc=--unwindset,_ZNK4ikos19patricia_trees_impl4nodeI1K1VSt8equal_toIS3_EE6lookupERKS2_:1,--unwindset,_ZNK4ikos19patricia_trees_impl4nodeI1K1VSt8equal_toIS3_EE4findERKS2_:1,--unwindset,_ZN4ikos19patricia_trees_impl4treeI1K1VSt8equal_toIS3_EE6insertESt10shared_ptrIS6_ERKS2_RKS3_RNS_9binary_opIS2_S3_EEb:2,--unwindset,_ZN4ikos19patricia_trees_impl4treeI1K1VSt8equal_toIS3_EE5mergeESt10shared_ptrIS6_ES8_RNS_9binary_opIS2_S3_EEb:2,--unwindset,_ZN4ikos19patricia_trees_impl4treeI1K1VSt8equal_toIS3_EE7compareESt10shared_ptrIS6_ES8_RNS_13partial_orderIS3_EEb:2,--unwindset,_ZN4ikos19patricia_trees_impl4treeI1K1VSt8equal_toIS3_EE6removeESt10shared_ptrIS6_ERKS2_:2,--unwindset,_ZN4ikos19patricia_trees_impl4treeI1K1VSt8equal_toIS3_EE9transformESt10shared_ptrIS6_ERNS_8unary_opIS3_EE:2,--unwindset,_ZN4ikos19patricia_trees_impl4treeI1K1VSt8equal_toIS3_EE8iterator18look_for_next_leafESt10shared_ptrIS6_E:2
+//@check id=leq_top fn=_ZNK4ikos13patricia_treeI1K1VSt8equal_toIS2_EE6lookupERKS1_ props=C19,C04 tag=lookup unwind=5 backends=minisat,kissat first_timeout=600 timeout=900 timeout_thorough=2400 defs=SCN=SC_BUILD,DTOP=1 vary=NN:4,5,7,1,3 vary_thorough=NN:0-7 bounded="<=2 bindings per tree, keys < 8" cbmc=--unwindset,_ZNK4ikos19patricia_trees_impl4nodeI1K1VSt8equal_toIS3_EE6lookupERKS2_:1,--unwindset,_ZNK4ikos19patricia_trees_impl4nodeI1K1VSt8equal_toIS3_EE4findERKS2_:1,--unwindset,_ZN4ikos19patricia_trees_impl4treeI1K1VSt8equal_toIS3_EE6insertESt10shared_ptrIS6_ERKS2_RKS3_RNS_9binary_opIS2_S3_EEb:2,--unwindset,_ZN4ikos19patricia_trees_impl4treeI1K1VSt8equal_toIS3_EE5mergeESt10shared_ptrIS6_ES8_RNS_9binary_opIS2_S3_EEb:2,--unwindset,_ZN4ikos19patricia_trees_impl4treeI1K1VSt8equal_toIS3_EE7compareESt10shared_ptrIS6_ES8_RNS_13partial_orderIS3_EEb:2,--unwindset,_ZN4ikos19patricia_trees_impl4treeI1K1VSt8equal_toIS3_EE6removeESt10shared_ptrIS6_ERKS2_:2,--unwindset,_ZN4ikos19patricia_trees_impl4treeI1K1VSt8equal_toIS3_EE9transformESt10shared_ptrIS6_ERNS_8unary_opIS3_EE:2,--unwindset,_ZN4ikos19patricia_trees_impl4treeI1K1VSt8equal_toIS3_EE8iterator18look_for_next_leafESt10shared_ptrIS6_E:2
 void h_leq_top(void) LEQ_HARNESS(GIN(g_a, NA_LO, NA_HI), GIN(g_b, NB_LO, NB_HI), NA_HI, NB_HI)
 /* BOUNDED */
-//@check id=leq_bot fn=_ZNK4ikos13patricia_treeI1K1VSt8equal_toIS2_EE6lookupERKS1_ props=C19,C04 tag=lookup unwind=5 backends=minisat,kissat first_timeout=600 timeout=900 defs=SCN=SC_BUILD,DTOP=0 vary=CN:0-2 bounded="<=2 bindings per tree, keys < 8" cbmc=--unwindset,_ZNK4ikos19patricia_trees_impl4nodeI1K1VSt8equal_toIS3_EE6lookupERKS2_:1,--unwindset,_ZNK4ikos19patricia_trees_impl4nodeI1K1VSt8equal_toIS3_EE4findERKS2_:1,--unwindset,_ZN4ikos19patricia_trees_impl4treeI1K1VSt8equal_toIS3_EE6insertESt10shared_ptrIS6_ERKS2_RKS3_RNS_9binary_opIS2_S3_EEb:2,--unwindset,_ZN4ikos19patricia_trees_impl4treeI1K1VSt8equal_toIS3_EE5mergeESt10shared_ptrIS6_ES8_RNS_9binary_opIS2_S3_EEb:2,--unwindset,_ZN4ikos19patricia_trees_impl4treeI1K1VSt8equal_toIS3_EE7compareESt10shared_ptrIS6_ES8_RNS_13partial_orderIS3_EEb:2,--unwindset,_ZN4ikos19patricia_trees_impl4treeI1K1VSt8equal_toIS3_EE6removeESt10shared_ptrIS6_ERKS2_:2,--unwindset,_ZN4ikos19patricia_trees_impl4treeI1K1VSt8equal_toIS3_EE9transformESt10shared_ptrIS6_ERNS_8unary_opIS3_EE:2,--unwindset,_ZN4ikos19patricia_trees_impl4treeI1K1VSt8equal_toIS3_EE8iterator18look_for_next_leafESt10shared_ptrIS6_E:2
+//@check id=leq_bot fn=_ZNK4ikos13patricia_treeI1K1VSt8equal_toIS2_EE6lookupERKS1_ props=C19,C04 tag=lookup unwind=5 backends=minisat,kissat first_timeout=600 timeout=900 timeout_thorough=2400 defs=SCN=SC_BUILD,DTOP=0 vary=NN:4,5,7,1,3 vary_thorough=NN:0-7 bounded="<=2 bindings per tree, keys < 8" cbmc=--unwindset,_ZNK4ikos19patricia_trees_impl4nodeI1K1VSt8equal_toIS3_EE6lookupERKS2_:1,--unwindset,_ZNK4ikos19patricia_trees_impl4nodeI1K1VSt8equal_toIS3_EE4findERKS2_:1,--unwindset,_ZN4ikos19patricia_trees_impl4treeI1K1VSt8equal_toIS3_EE6insertESt10shared_ptrIS6_ERKS2_RKS3_RNS_9binary_opIS2_S3_EEb:2,--unwindset,_ZN4ikos19patricia_trees_impl4treeI1K1VSt8equal_toIS3_EE5mergeESt10shared_ptrIS6_ES8_RNS_9binary_opIS2_S3_EEb:2,--unwindset,_ZN4ikos19patricia_trees_impl4treeI1K1VSt8equal_toIS3_EE7compareESt10shared_ptrIS6_ES8_RNS_13partial_orderIS3_EEb:2,--unwindset,_ZN4ikos19patricia_trees_impl4treeI1K1VSt8equal_toIS3_EE6removeESt10shared_ptrIS6_ERKS2_:2,--unwindset,_ZN4ikos19patricia_trees_impl4treeI1K1VSt8equal_toIS3_EE9transformESt10shared_ptrIS6_ERNS_8unary_opIS3_EE:2,--unwindset,_ZN4ikos19patricia_trees_impl4treeI1K1VSt8equal_toIS3_EE8iterator18look_for_next_leafESt10shared_ptrIS6_E:2
 void h_leq_bot(void) LEQ_HARNESS(GIN(g_a, NA_LO, NA_HI), GIN(g_b, NB_LO, NB_HI), NA_HI, NB_HI)
 /* a tree against itself / against a copy that shares its root: yes in both modes (C04: yes on equal values) */
 /* BOUNDED */
-//@check id=leq_self fn=_ZNK4ikos13patricia_treeI1K1VSt8equal_toIS2_EE6lookupERKS1_ props=C19,C04 tag=lookup unwind=5 backends=minisat,kissat first_timeout=600 timeout=900 defs=SCN=SC_BUILD vary=CA:0-1 bounded="<=2 bindings, keys < 8" cbmc=--unwindset,_ZNK4ikos19patricia_trees_impl4nodeI1K1VSt8equal_toIS3_EE6lookupERKS2_:1,--unwindset,_ZNK4ikos19patricia_trees_impl4nodeI1K1VSt8equal_toIS3_EE4findERKS2_:1,--unwindset,_ZN4ikos19patricia_trees_impl4treeI1K1VSt8equal_toIS3_EE6insertESt10shared_ptrIS6_ERKS2_RKS3_RNS_9binary_opIS2_S3_EEb:2,--unwindset,_ZN4ikos19patricia_trees_impl4treeI1K1VSt8equal_toIS3_EE5mergeESt10shared_ptrIS6_ES8_RNS_9binary_opIS2_S3_EEb:2,--unwindset,_ZN4ikos19patricia_trees_impl4treeI1K1VSt8equal_toIS3_EE7compareESt10shared_ptrIS6_ES8_RNS_13partial_orderIS3_EEb:2,--unwindset,_ZN4ikos19patricia_trees_impl4treeI1K1VSt8equal_toIS3_EE6removeESt10shared_ptrIS6_ERKS2_:2,--unwindset,_ZN4ikos19patricia_trees_impl4treeI1K1VSt8equal_toIS3_EE9transformESt10shared_ptrIS6_ERNS_8unary_opIS3_EE:2,--unwindset,_ZN4ikos19patricia_trees_impl4treeI1K1VSt8equal_toIS3_EE8iterator18look_for_next_leafESt10shared_ptrIS6_E:2
+//@check id=leq_self fn=_ZNK4ikos13patricia_treeI1K1VSt8equal_toIS2_EE6lookupERKS1_ props=C19,C04 tag=lookup unwind=5 backends=minisat,kissat first_timeout=600 timeout=900 timeout_thorough=2400 defs=SCN=SC_BUILD vary=NA:1 vary_thorough=NA:0-1 bounded="<=2 bindings, keys < 8" cbmc=--unwindset,_ZNK4ikos19patricia_trees_impl4nodeI1K1VSt8equal_toIS3_EE6lookupERKS2_:1,--unwindset,_ZNK4ikos19patricia_trees_impl4nodeI1K1VSt8equal_toIS3_EE4findERKS2_:1,--unwindset,_ZN4ikos19patricia_trees_impl4treeI1K1VSt8equal_toIS3_EE6insertESt10shared_ptrIS6_ERKS2_RKS3_RNS_9binary_opIS2_S3_EEb:2,--unwindset,_ZN4ikos19patricia_trees_impl4treeI1K1VSt8equal_toIS3_EE5mergeESt10shared_ptrIS6_ES8_RNS_9binary_opIS2_S3_EEb:2,--unwindset,_ZN4ikos19patricia_trees_impl4treeI1K1VSt8equal_toIS3_EE7compareESt10shared_ptrIS6_ES8_RNS_13partial_orderIS3_EEb:2,--unwindset,_ZN4ikos19patricia_trees_impl4treeI1K1VSt8equal_toIS3_EE6removeESt10shared_ptrIS6_ERKS2_:2,--unwindset,_ZN4ikos19patricia_trees_impl4treeI1K1VSt8equal_toIS3_EE9transformESt10shared_ptrIS6_ERNS_8unary_opIS3_EE:2,--unwindset,_ZN4ikos19patricia_trees_impl4treeI1K1VSt8equal_toIS3_EE8iterator18look_for_next_leafESt10shared_ptrIS6_E:2
 void h_leq_self(void){ GIN(g_a, NA_LO, NA_HI); GHOSTG(uint64_t, g_q); GHOSTG(uint64_t, g_k);
   PT ta; build(&ta, &g_a, NA_HI); LEPO po; le_po_new(&po, g_k & 1);
   __CPROVER_assert(PT_LEQ(&ta, &ta, (PORD *)&po) == 1, "a tree is included in itself");
   OBSERVE_X(&ta, "leq: operand unchanged"); REACH; }
 /* BOUNDED */
-//@check id=leq_copy fn=_ZNK4ikos13patricia_treeI1K1VSt8equal_toIS2_EE6lookupERKS1_ props=C19,C04 tag=lookup unwind=5 backends=minisat,kissat first_timeout=600 timeout=900 defs=SCN=SC_BUILD vary=CA:0-1 bounded="<=2 bindings, keys < 8" cbmc=--unwindset,_ZNK4ikos19patricia_trees_impl4nodeI1K1VSt8equal_toIS3_EE6lookupERKS2_:1,--unwindset,_ZNK4ikos19patricia_trees_impl4nodeI1K1VSt8equal_toIS3_EE4findERKS2_:1,--unwindset,_ZN4ikos19patricia_trees_impl4treeI1K1VSt8equal_toIS3_EE6insertESt10shared_ptrIS6_ERKS2_RKS3_RNS_9binary_opIS2_S3_EEb:2,--unwindset,_ZN4ikos19patricia_trees_impl4treeI1K1VSt8equal_toIS3_EE5mergeESt10shared_ptrIS6_ES8_RNS_9binary_opIS2_S3_EEb:2,--unwindset,_ZN4ikos19patricia_trees_impl4treeI1K1VSt8equal_toIS3_EE7compareESt10shared_ptrIS6_ES8_RNS_13partial_orderIS3_EEb:2,--unwindset,_ZN4ikos19patricia_trees_impl4treeI1K1VSt8equal_toIS3_EE6removeESt10shared_ptrIS6_ERKS2_:2,--unwindset,_ZN4ikos19patricia_trees_impl4treeI1K1VSt8equal_toIS3_EE9transformESt10shared_ptrIS6_ERNS_8unary_opIS3_EE:2,--unwindset,_ZN4ikos19patricia_trees_impl4treeI1K1VSt8equal_toIS3_EE8iterator18look_for_next_leafESt10shared_ptrIS6_E:2
+//@check id=leq_copy fn=_ZNK4ikos13patricia_treeI1K1VSt8equal_toIS2_EE6lookupERKS1_ props=C19,C04 tag=lookup unwind=5 backends=minisat,kissat first_timeout=600 timeout=900 timeout_thorough=2400 defs=SCN=SC_BUILD vary=NA:1 vary_thorough=NA:0-1 bounded="<=2 bindings, keys < 8" cbmc=--unwindset,_ZNK4ikos19patricia_trees_impl4nodeI1K1VSt8equal_toIS3_EE6lookupERKS2_:1,--unwindset,_ZNK4ikos19patricia_trees_impl4nodeI1K1VSt8equal_toIS3_EE4findERKS2_:1,--unwindset,_ZN4ikos19patricia_trees_impl4treeI1K1VSt8equal_toIS3_EE6insertESt10shared_ptrIS6_ERKS2_RKS3_RNS_9binary_opIS2_S3_EEb:2,--unwindset,_ZN4ikos19patricia_trees_impl4treeI1K1VSt8equal_toIS3_EE5mergeESt10shared_ptrIS6_ES8_RNS_9binary_opIS2_S3_EEb:2,--unwindset,_ZN4ikos19patricia_trees_impl4treeI1K1VSt8equal_toIS3_EE7compareESt10shared_ptrIS6_ES8_RNS_13partial_orderIS3_EEb:2,--unwindset,_ZN4ikos19patricia_trees_impl4treeI1K1VSt8equal_toIS3_EE6removeESt10shared_ptrIS6_ERKS2_:2,--unwindset,_ZN4ikos19patricia_trees_impl4treeI1K1VSt8equal_toIS3_EE9transformESt10shared_ptrIS6_ERNS_8unary_opIS3_EE:2,--unwindset,_ZN4ikos19patricia_trees_impl4treeI1K1VSt8equal_toIS3_EE8iterator18look_for_next_leafESt10shared_ptrIS6_E:2
 void h_leq_copy(void){ GIN(g_a, NA_LO, NA_HI); GHOSTG(uint64_t, g_q); GHOSTG(uint64_t, g_k);
   PT ta, tc; build(&ta, &g_a, NA_HI); pt_copy(&tc, &ta); LEPO po; le_po_new(&po, g_k & 1);
   __CPROVER_assert(PT_LEQ(&ta, &tc, (PORD *)&po) == 1, "a tree is included in a copy of itself");
@@ -202,7 +204,7 @@ void h_leq_copy(void){ GIN(g_a, NA_LO, NA_HI); GHOSTG(uint64_t, g_q); GHOSTG(uin
  * tree::merge / tree::compare for nodes with DIFFERENT branching bits, insert / remove / find below a node -- are
  * reached with concrete key sets instead; the values stay symbolic, so which bindings are dropped (top), which
  * subtrees are shared with an operand (`new_lb == s->left_branch()`), bottom, and the order are still decided
- * symbolically.  (deep_leq_top, deep_merge_max and deep_merge_min run their first four pairs in the quick tier too.)
+ * symbolically.  (deep_leq_top runs pairs 0 and 2 in the quick tier too.)
  * Key sets as bit masks (bit c = key c):
  *   A = {0,1,4,5}: root bit 4, children nodes with bit 1      A' = {2,3,6,7}: the same shape on the other side
  *   B = {0,2,4,6}: root bit 4, children nodes with bit 2      E = {0,1,4}, F = {2,3,4}: root bit 4, disjoint left subtrees
@@ -230,10 +232,10 @@ void h_leq_copy(void){ GIN(g_a, NA_LO, NA_HI); GHOSTG(uint64_t, g_q); GHOSTG(uin
 #define CS_B (CS == 0 ? KS_B : CS == 1 ? KS_B : CS == 2 ? KS_A : CS == 3 ? KS_A2 : CS == 4 ? KS_F : CS == 5 ? KS_A : CS == 6 ? KS_G : CS == 7 ? KS_A : \
               CS == 8 ? KS_A : CS == 9 ? KS_L1 : CS == 10 ? KS_A : CS == 11 ? KS_L3 : CS == 12 ? KS_D : KS_C)
 /* BOUNDED */
-//@check id=deep_merge_max fn=_ZNK4ikos13patricia_treeI1K1VSt8equal_toIS2_EE6lookupERKS1_ props=C19 tag=lookup unwind=6 defs=SCN=SC_MERGE,OPK=OP_MAX vary=CS:0-3 vary_thorough=CS:0-13 bounded="one pair of concrete key sets per run (<=4 keys < 8 each, 14 pairs), values symbolic" backends=minisat,kissat first_timeout=900 timeout=1200 cbmc=--unwindset,_ZNK4ikos19patricia_trees_impl4nodeI1K1VSt8equal_toIS3_EE6lookupERKS2_:3,--unwindset,_ZNK4ikos19patricia_trees_impl4nodeI1K1VSt8equal_toIS3_EE4findERKS2_:3,--unwindset,_ZN4ikos19patricia_trees_impl4treeI1K1VSt8equal_toIS3_EE6insertESt10shared_ptrIS6_ERKS2_RKS3_RNS_9binary_opIS2_S3_EEb:4,--unwindset,_ZN4ikos19patricia_trees_impl4treeI1K1VSt8equal_toIS3_EE5mergeESt10shared_ptrIS6_ES8_RNS_9binary_opIS2_S3_EEb:4,--unwindset,_ZN4ikos19patricia_trees_impl4treeI1K1VSt8equal_toIS3_EE7compareESt10shared_ptrIS6_ES8_RNS_13partial_orderIS3_EEb:4,--unwindset,_ZN4ikos19patricia_trees_impl4treeI1K1VSt8equal_toIS3_EE6removeESt10shared_ptrIS6_ERKS2_:4,--unwindset,_ZN4ikos19patricia_trees_impl4treeI1K1VSt8equal_toIS3_EE9transformESt10shared_ptrIS6_ERNS_8unary_opIS3_EE:4,--unwindset,_ZN4ikos19patricia_trees_impl4treeI1K1VSt8equal_toIS3_EE8iterator18look_for_next_leafESt10shared_ptrIS6_E:4
+//@check id=deep_merge_max fn=_ZNK4ikos13patricia_treeI1K1VSt8equal_toIS2_EE6lookupERKS1_ props=C19 tag=lookup tier=thorough unwind=6 defs=SCN=SC_MERGE,OPK=OP_MAX vary=CS:0-13 bounded="one pair of concrete key sets per run (<=4 keys < 8 each, 14 pairs), values symbolic" backends=minisat,kissat first_timeout=900 timeout=1200 cbmc=--unwindset,_ZNK4ikos19patricia_trees_impl4nodeI1K1VSt8equal_toIS3_EE6lookupERKS2_:3,--unwindset,_ZNK4ikos19patricia_trees_impl4nodeI1K1VSt8equal_toIS3_EE4findERKS2_:3,--unwindset,_ZN4ikos19patricia_trees_impl4treeI1K1VSt8equal_toIS3_EE6insertESt10shared_ptrIS6_ERKS2_RKS3_RNS_9binary_opIS2_S3_EEb:4,--unwindset,_ZN4ikos19patricia_trees_impl4treeI1K1VSt8equal_toIS3_EE5mergeESt10shared_ptrIS6_ES8_RNS_9binary_opIS2_S3_EEb:4,--unwindset,_ZN4ikos19patricia_trees_impl4treeI1K1VSt8equal_toIS3_EE7compareESt10shared_ptrIS6_ES8_RNS_13partial_orderIS3_EEb:4,--unwindset,_ZN4ikos19patricia_trees_impl4treeI1K1VSt8equal_toIS3_EE6removeESt10shared_ptrIS6_ERKS2_:4,--unwindset,_ZN4ikos19patricia_trees_impl4treeI1K1VSt8equal_toIS3_EE9transformESt10shared_ptrIS6_ERNS_8unary_opIS3_EE:4,--unwindset,_ZN4ikos19patricia_trees_impl4treeI1K1VSt8equal_toIS3_EE8iterator18look_for_next_leafESt10shared_ptrIS6_E:4
 void h_deep_merge_max(void) MERGE_HARNESS(GMASK(g_a, CS_A), GMASK(g_b, CS_B), PT_NMAX, PT_NMAX, MAXOP, max_op_new)
 /* BOUNDED */
-//@check id=deep_merge_min fn=_ZNK4ikos13patricia_treeI1K1VSt8equal_toIS2_EE6lookupERKS1_ props=C19 tag=lookup unwind=6 defs=SCN=SC_MERGE,OPK=OP_MIN vary=CS:0-3 vary_thorough=CS:0-13 bounded="one pair of concrete key sets per run (<=4 keys < 8 each, 14 pairs), values symbolic" backends=minisat,kissat first_timeout=900 timeout=1200 cbmc=--unwindset,_ZNK4ikos19patricia_trees_impl4nodeI1K1VSt8equal_toIS3_EE6lookupERKS2_:3,--unwindset,_ZNK4ikos19patricia_trees_impl4nodeI1K1VSt8equal_toIS3_EE4findERKS2_:3,--unwindset,_ZN4ikos19patricia_trees_impl4treeI1K1VSt8equal_toIS3_EE6insertESt10shared_ptrIS6_ERKS2_RKS3_RNS_9binary_opIS2_S3_EEb:4,--unwindset,_ZN4ikos19patricia_trees_impl4treeI1K1VSt8equal_toIS3_EE5mergeESt10shared_ptrIS6_ES8_RNS_9binary_opIS2_S3_EEb:4,--unwindset,_ZN4ikos19patricia_trees_impl4treeI1K1VSt8equal_toIS3_EE7compareESt10shared_ptrIS6_ES8_RNS_13partial_orderIS3_EEb:4,--unwindset,_ZN4ikos19patricia_trees_impl4treeI1K1VSt8equal_toIS3_EE6removeESt10shared_ptrIS6_ERKS2_:4,--unwindset,_ZN4ikos19patricia_trees_impl4treeI1K1VSt8equal_toIS3_EE9transformESt10shared_ptrIS6_ERNS_8unary_opIS3_EE:4,--unwindset,_ZN4ikos19patricia_trees_impl4treeI1K1VSt8equal_toIS3_EE8iterator18look_for_next_leafESt10shared_ptrIS6_E:4
+//@check id=deep_merge_min fn=_ZNK4ikos13patricia_treeI1K1VSt8equal_toIS2_EE6lookupERKS1_ props=C19 tag=lookup tier=thorough unwind=6 defs=SCN=SC_MERGE,OPK=OP_MIN vary=CS:0-13 bounded="one pair of concrete key sets per run (<=4 keys < 8 each, 14 pairs), values symbolic" backends=minisat,kissat first_timeout=900 timeout=1200 cbmc=--unwindset,_ZNK4ikos19patricia_trees_impl4nodeI1K1VSt8equal_toIS3_EE6lookupERKS2_:3,--unwindset,_ZNK4ikos19patricia_trees_impl4nodeI1K1VSt8equal_toIS3_EE4findERKS2_:3,--unwindset,_ZN4ikos19patricia_trees_impl4treeI1K1VSt8equal_toIS3_EE6insertESt10shared_ptrIS6_ERKS2_RKS3_RNS_9binary_opIS2_S3_EEb:4,--unwindset,_ZN4ikos19patricia_trees_impl4treeI1K1VSt8equal_toIS3_EE5mergeESt10shared_ptrIS6_ES8_RNS_9binary_opIS2_S3_EEb:4,--unwindset,_ZN4ikos19patricia_trees_impl4treeI1K1VSt8equal_toIS3_EE7compareESt10shared_ptrIS6_ES8_RNS_13partial_orderIS3_EEb:4,--unwindset,_ZN4ikos19patricia_trees_impl4treeI1K1VSt8equal_toIS3_EE6removeESt10shared_ptrIS6_ERKS2_:4,--unwindset,_ZN4ikos19patricia_trees_impl4treeI1K1VSt8equal_toIS3_EE9transformESt10shared_ptrIS6_ERNS_8unary_opIS3_EE:4,--unwindset,_ZN4ikos19patricia_trees_impl4treeI1K1VSt8equal_toIS3_EE8iterator18look_for_next_leafESt10shared_ptrIS6_E:4
 void h_deep_merge_min(void) MERGE_HARNESS(GMASK(g_a, CS_A), GMASK(g_b, CS_B), PT_NMAX, PT_NMAX, MINOP, min_op_new)
 /* BOUNDED */
 //@check id=deep_merge_widen fn=_ZNK4ikos13patricia_treeI1K1VSt8equal_toIS2_EE6lookupERKS1_ props=C19 tag=lookup tier=thorough unwind=6 defs=SCN=SC_MERGE,OPK=OP_WIDEN vary=CS:0-13 bounded="one pair of concrete key sets per run (<=4 keys < 8 each, 14 pairs), values symbolic" backends=minisat,kissat first_timeout=900 timeout=1200 cbmc=--unwindset,_ZNK4ikos19patricia_trees_impl4nodeI1K1VSt8equal_toIS3_EE6lookupERKS2_:3,--unwindset,_ZNK4ikos19patricia_trees_impl4nodeI1K1VSt8equal_toIS3_EE4findERKS2_:3,--unwindset,_ZN4ikos19patricia_trees_impl4treeI1K1VSt8equal_toIS3_EE6insertESt10shared_ptrIS6_ERKS2_RKS3_RNS_9binary_opIS2_S3_EEb:4,--unwindset,_ZN4ikos19patricia_trees_impl4treeI1K1VSt8equal_toIS3_EE5mergeESt10shared_ptrIS6_ES8_RNS_9binary_opIS2_S3_EEb:4,--unwindset,_ZN4ikos19patricia_trees_impl4treeI1K1VSt8equal_toIS3_EE7compareESt10shared_ptrIS6_ES8_RNS_13partial_orderIS3_EEb:4,--unwindset,_ZN4ikos19patricia_trees_impl4treeI1K1VSt8equal_toIS3_EE6removeESt10shared_ptrIS6_ERKS2_:4,--unwindset,_ZN4ikos19patricia_trees_impl4treeI1K1VSt8equal_toIS3_EE9transformESt10shared_ptrIS6_ERNS_8unary_opIS3_EE:4,--unwindset,_ZN4ikos19patricia_trees_impl4treeI1K1VSt8equal_toIS3_EE8iterator18look_for_next_leafESt10shared_ptrIS6_E:4
@@ -242,7 +244,7 @@ void h_deep_merge_widen(void) MERGE_HARNESS(GMASK(g_a, CS_A), GMASK(g_b, CS_B), 
 //@check id=deep_merge_first fn=_ZNK4ikos13patricia_treeI1K1VSt8equal_toIS2_EE6lookupERKS1_ props=C19 tag=lookup tier=thorough unwind=6 defs=SCN=SC_MERGE,OPK=OP_FIRST vary=CS:0-13 bounded="one pair of concrete key sets per run (<=4 keys < 8 each, 14 pairs), values symbolic" backends=minisat,kissat first_timeout=900 timeout=1200 cbmc=--unwindset,_ZNK4ikos19patricia_trees_impl4nodeI1K1VSt8equal_toIS3_EE6lookupERKS2_:3,--unwindset,_ZNK4ikos19patricia_trees_impl4nodeI1K1VSt8equal_toIS3_EE4findERKS2_:3,--unwindset,_ZN4ikos19patricia_trees_impl4treeI1K1VSt8equal_toIS3_EE6insertESt10shared_ptrIS6_ERKS2_RKS3_RNS_9binary_opIS2_S3_EEb:4,--unwindset,_ZN4ikos19patricia_trees_impl4treeI1K1VSt8equal_toIS3_EE5mergeESt10shared_ptrIS6_ES8_RNS_9binary_opIS2_S3_EEb:4,--unwindset,_ZN4ikos19patricia_trees_impl4treeI1K1VSt8equal_toIS3_EE7compareESt10shared_ptrIS6_ES8_RNS_13partial_orderIS3_EEb:4,--unwindset,_ZN4ikos19patricia_trees_impl4treeI1K1VSt8equal_toIS3_EE6removeESt10shared_ptrIS6_ERKS2_:4,--unwindset,_ZN4ikos19patricia_trees_impl4treeI1K1VSt8equal_toIS3_EE9transformESt10shared_ptrIS6_ERNS_8unary_opIS3_EE:4,--unwindset,_ZN4ikos19patricia_trees_impl4treeI1K1VSt8equal_toIS3_EE8iterator18look_for_next_leafESt10shared_ptrIS6_E:4
 void h_deep_merge_first(void) MERGE_HARNESS(GMASK(g_a, CS_A), GMASK(g_b, CS_B), PT_NMAX, PT_NMAX, FIRSTOP, first_op_new)
 /* BOUNDED */
-//@check id=deep_leq_top fn=_ZNK4ikos13patricia_treeI1K1VSt8equal_toIS2_EE6lookupERKS1_ props=C19,C04 tag=lookup unwind=6 defs=SCN=SC_BUILD,DTOP=1 vary=CS:0-3 vary_thorough=CS:0-13 bounded="one pair of concrete key sets per run (<=4 keys < 8 each, 14 pairs), values symbolic" backends=minisat,kissat first_timeout=900 timeout=1200 cbmc=--unwindset,_ZNK4ikos19patricia_trees_impl4nodeI1K1VSt8equal_toIS3_EE6lookupERKS2_:3,--unwindset,_ZNK4ikos19patricia_trees_impl4nodeI1K1VSt8equal_toIS3_EE4findERKS2_:3,--unwindset,_ZN4ikos19patricia_trees_impl4treeI1K1VSt8equal_toIS3_EE6insertESt10shared_ptrIS6_ERKS2_RKS3_RNS_9binary_opIS2_S3_EEb:4,--unwindset,_ZN4ikos19patricia_trees_impl4treeI1K1VSt8equal_toIS3_EE5mergeESt10shared_ptrIS6_ES8_RNS_9binary_opIS2_S3_EEb:4,--unwindset,_ZN4ikos19patricia_trees_impl4treeI1K1VSt8equal_toIS3_EE7compareESt10shared_ptrIS6_ES8_RNS_13partial_orderIS3_EEb:4,--unwindset,_ZN4ikos19patricia_trees_impl4treeI1K1VSt8equal_toIS3_EE6removeESt10shared_ptrIS6_ERKS2_:4,--unwindset,_ZN4ikos19patricia_trees_impl4treeI1K1VSt8equal_toIS3_EE9transformESt10shared_ptrIS6_ERNS_8unary_opIS3_EE:4,--unwindset,_ZN4ikos19patricia_trees_impl4treeI1K1VSt8equal_toIS3_EE8iterator18look_for_next_leafESt10shared_ptrIS6_E:4
+//@check id=deep_leq_top fn=_ZNK4ikos13patricia_treeI1K1VSt8equal_toIS2_EE6lookupERKS1_ props=C19,C04 tag=lookup unwind=6 defs=SCN=SC_BUILD,DTOP=1 vary=CS:0,2 vary_thorough=CS:0-13 bounded="one pair of concrete key sets per run (<=4 keys < 8 each, 14 pairs), values symbolic" backends=minisat,kissat first_timeout=900 timeout=1200 cbmc=--unwindset,_ZNK4ikos19patricia_trees_impl4nodeI1K1VSt8equal_toIS3_EE6lookupERKS2_:3,--unwindset,_ZNK4ikos19patricia_trees_impl4nodeI1K1VSt8equal_toIS3_EE4findERKS2_:3,--unwindset,_ZN4ikos19patricia_trees_impl4treeI1K1VSt8equal_toIS3_EE6insertESt10shared_ptrIS6_ERKS2_RKS3_RNS_9binary_opIS2_S3_EEb:4,--unwindset,_ZN4ikos19patricia_trees_impl4treeI1K1VSt8equal_toIS3_EE5mergeESt10shared_ptrIS6_ES8_RNS_9binary_opIS2_S3_EEb:4,--unwindset,_ZN4ikos19patricia_trees_impl4treeI1K1VSt8equal_toIS3_EE7compareESt10shared_ptrIS6_ES8_RNS_13partial_orderIS3_EEb:4,--unwindset,_ZN4ikos19patricia_trees_impl4treeI1K1VSt8equal_toIS3_EE6removeESt10shared_ptrIS6_ERKS2_:4,--unwindset,_ZN4ikos19patricia_trees_impl4treeI1K1VSt8equal_toIS3_EE9transformESt10shared_ptrIS6_ERNS_8unary_opIS3_EE:4,--unwindset,_ZN4ikos19patricia_trees_impl4treeI1K1VSt8equal_toIS3_EE8iterator18look_for_next_leafESt10shared_ptrIS6_E:4
 void h_deep_leq_top(void) LEQ_HARNESS(GMASK(g_a, CS_A), GMASK(g_b, CS_B), PT_NMAX, PT_NMAX)
 /* BOUNDED */
 //@check id=deep_leq_bot fn=_ZNK4ikos13patricia_treeI1K1VSt8equal_toIS2_EE6lookupERKS1_ props=C19,C04 tag=lookup tier=thorough unwind=6 defs=SCN=SC_BUILD,DTOP=0 vary=CS:0-13 bounded="one pair of concrete key sets per run (<=4 keys < 8 each, 14 pairs), values symbolic" backends=minisat,kissat first_timeout=900 timeout=1200 cbmc=--unwindset,_ZNK4ikos19patricia_trees_impl4nodeI1K1VSt8equal_toIS3_EE6lookupERKS2_:3,--unwindset,_ZNK4ikos19patricia_trees_impl4nodeI1K1VSt8equal_toIS3_EE4findERKS2_:3,--unwindset,_ZN4ikos19patricia_trees_impl4treeI1K1VSt8equal_toIS3_EE6insertESt10shared_ptrIS6_ERKS2_RKS3_RNS_9binary_opIS2_S3_EEb:4,--unwindset,_ZN4ikos19patricia_trees_impl4treeI1K1VSt8equal_toIS3_EE5mergeESt10shared_ptrIS6_ES8_RNS_9binary_opIS2_S3_EEb:4,--unwindset,_ZN4ikos19patricia_trees_impl4treeI1K1VSt8equal_toIS3_EE7compareESt10shared_ptrIS6_ES8_RNS_13partial_orderIS3_EEb:4,--unwindset,_ZN4ikos19patricia_trees_impl4treeI1K1VSt8equal_toIS3_EE6removeESt10shared_ptrIS6_ERKS2_:4,--unwindset,_ZN4ikos19patricia_trees_impl4treeI1K1VSt8equal_toIS3_EE9transformESt10shared_ptrIS6_ERNS_8unary_opIS3_EE:4,--unwindset,_ZN4ikos19patricia_trees_impl4treeI1K1VSt8equal_toIS3_EE8iterator18look_for_next_leafESt10shared_ptrIS6_E:4
@@ -278,3 +280,18 @@ void h_deep_iterate(void){ GMASK(g_a, CT_A); GHOSTG(uint64_t, g_q); GHOSTG(uint6
   __CPROVER_assert(!m_has(&g_a, g_k) || it.f2.a[g_k] == m_val(&g_a, g_k), "iteration lists the bound value");
   __CPROVER_assert(it.f3 == 0, "iteration lists no other key");
   OBSERVE_X(&t, "iteration leaves the tree as it was"); REACH; }
+/* a nested tree against itself / against a copy sharing its root (with symbolic keys only <= 1 binding is affordable here:
+ * two reads of the same symbolic root are not syntactically equal for the symbolic execution, which then walks through
+ * all of compare) */
+/* BOUNDED */
+//@check id=deep_leq_self fn=_ZNK4ikos13patricia_treeI1K1VSt8equal_toIS2_EE6lookupERKS1_ props=C19,C04 tag=lookup tier=thorough unwind=6 defs=SCN=SC_BUILD vary=CT:0-3 bounded="one concrete key set of 4 keys < 8 per run (4 sets), values symbolic" backends=minisat,kissat first_timeout=900 timeout=1200 cbmc=--unwindset,_ZNK4ikos19patricia_trees_impl4nodeI1K1VSt8equal_toIS3_EE6lookupERKS2_:3,--unwindset,_ZNK4ikos19patricia_trees_impl4nodeI1K1VSt8equal_toIS3_EE4findERKS2_:3,--unwindset,_ZN4ikos19patricia_trees_impl4treeI1K1VSt8equal_toIS3_EE6insertESt10shared_ptrIS6_ERKS2_RKS3_RNS_9binary_opIS2_S3_EEb:4,--unwindset,_ZN4ikos19patricia_trees_impl4treeI1K1VSt8equal_toIS3_EE5mergeESt10shared_ptrIS6_ES8_RNS_9binary_opIS2_S3_EEb:4,--unwindset,_ZN4ikos19patricia_trees_impl4treeI1K1VSt8equal_toIS3_EE7compareESt10shared_ptrIS6_ES8_RNS_13partial_orderIS3_EEb:4,--unwindset,_ZN4ikos19patricia_trees_impl4treeI1K1VSt8equal_toIS3_EE6removeESt10shared_ptrIS6_ERKS2_:4,--unwindset,_ZN4ikos19patricia_trees_impl4treeI1K1VSt8equal_toIS3_EE9transformESt10shared_ptrIS6_ERNS_8unary_opIS3_EE:4,--unwindset,_ZN4ikos19patricia_trees_impl4treeI1K1VSt8equal_toIS3_EE8iterator18look_for_next_leafESt10shared_ptrIS6_E:4
+void h_deep_leq_self(void){ GMASK(g_a, CT_A); GHOSTG(uint64_t, g_q); GHOSTG(uint64_t, g_k);
+  PT ta; build(&ta, &g_a, PT_NMAX); LEPO po; le_po_new(&po, g_k & 1);
+  __CPROVER_assert(PT_LEQ(&ta, &ta, (PORD *)&po) == 1, "a tree is included in itself");
+  OBSERVE_X(&ta, "leq: operand unchanged"); REACH; }
+/* BOUNDED */
+//@check id=deep_leq_copy fn=_ZNK4ikos13patricia_treeI1K1VSt8equal_toIS2_EE6lookupERKS1_ props=C19,C04 tag=lookup tier=thorough unwind=6 defs=SCN=SC_BUILD vary=CT:0-3 bounded="one concrete key set of 4 keys < 8 per run (4 sets), values symbolic" backends=minisat,kissat first_timeout=900 timeout=1200 cbmc=--unwindset,_ZNK4ikos19patricia_trees_impl4nodeI1K1VSt8equal_toIS3_EE6lookupERKS2_:3,--unwindset,_ZNK4ikos19patricia_trees_impl4nodeI1K1VSt8equal_toIS3_EE4findERKS2_:3,--unwindset,_ZN4ikos19patricia_trees_impl4treeI1K1VSt8equal_toIS3_EE6insertESt10shared_ptrIS6_ERKS2_RKS3_RNS_9binary_opIS2_S3_EEb:4,--unwindset,_ZN4ikos19patricia_trees_impl4treeI1K1VSt8equal_toIS3_EE5mergeESt10shared_ptrIS6_ES8_RNS_9binary_opIS2_S3_EEb:4,--unwindset,_ZN4ikos19patricia_trees_impl4treeI1K1VSt8equal_toIS3_EE7compareESt10shared_ptrIS6_ES8_RNS_13partial_orderIS3_EEb:4,--unwindset,_ZN4ikos19patricia_trees_impl4treeI1K1VSt8equal_toIS3_EE6removeESt10shared_ptrIS6_ERKS2_:4,--unwindset,_ZN4ikos19patricia_trees_impl4treeI1K1VSt8equal_toIS3_EE9transformESt10shared_ptrIS6_ERNS_8unary_opIS3_EE:4,--unwindset,_ZN4ikos19patricia_trees_impl4treeI1K1VSt8equal_toIS3_EE8iterator18look_for_next_leafESt10shared_ptrIS6_E:4
+void h_deep_leq_copy(void){ GMASK(g_a, CT_A); GHOSTG(uint64_t, g_q); GHOSTG(uint64_t, g_k);
+  PT ta, tc; build(&ta, &g_a, PT_NMAX); pt_copy(&tc, &ta); LEPO po; le_po_new(&po, g_k & 1);
+  __CPROVER_assert(PT_LEQ(&ta, &tc, (PORD *)&po) == 1, "a tree is included in a copy of itself");
+  OBSERVE_X(&tc, "the copy denotes the same map"); REACH; }
